@@ -5,6 +5,7 @@ use std::net::SocketAddrV4;
 use std::net::SocketAddrV6;
 
 use anyhow::Result;
+use anyhow::bail;
 use tokio_util::bytes::Buf;
 use tokio_util::bytes::BufMut;
 use tokio_util::bytes::BytesMut;
@@ -34,6 +35,9 @@ pub fn encode(addr: &Address, dst: &mut BytesMut) {
 }
 
 pub fn decode(src: &mut BytesMut) -> Result<Address> {
+    if src.len() < 2 || src.len() < try_decode_at(src, 0)? {
+        bail!("incomplete address: {} bytes", src.len());
+    }
     let addr_type = Socks5AddressType::try_from(src.get_u8())?;
     match addr_type {
         Socks5AddressType::Ipv4 => {
@@ -44,7 +48,7 @@ pub fn decode(src: &mut BytesMut) -> Result<Address> {
             let len = src.get_u8();
             let host_bytes = src.split_to(len as usize);
             let port = src.get_u16();
-            let host = unsafe { String::from_utf8_unchecked(host_bytes.to_vec()) };
+            let host = String::from_utf8(host_bytes.to_vec())?;
             Ok(Address::Domain(host, port))
         }
         Socks5AddressType::Ipv6 => {
